@@ -18,6 +18,9 @@ RULE = ('line lists are assembled from 0-6 generated hunks whose geometry is '
         'naming that line. Random lists of random byte lines and the empty '
         'list must not raise anything else. Non-trivial = at least one hunk '
         'with a change; distinct = fingerprint of the line list + mode.')
+RULE += (
+         ' Process axes (DESIGN 2.8): 2 of 16 shards run under python -O, 4 '
+         'of 16 after a hostile warm-up of the library.')
 FLOOR = {'quick': 20000, 'thorough': 500000}
 REQUIRED_REACH = ['get_unified_diff_hunks']
 REQUIRED_COUNTERS = ['wellformed_compared', 'damages_checked',
